@@ -78,7 +78,7 @@ def U1 : JRec := { L1 with isLock := false, aofFlag := 8, stored := 25, ct := 10
 
 /-- A depth-2 hold, one level released: the journal means "depth 1". -/
 theorem partial_unlock_example :
-    (recover [L1, L2, U1]).get 0 100 1 = some ⟨0, 100, 1, 1, 1, 2, 0, some 35⟩ := by decide
+    (recover [L1, L2, U1]).get 0 100 1 = some ⟨0, 100, 1, 1, 1, 2, 0, some 35, 0⟩ := by decide
 
 /-- The same history with the unlock journalled with Rcount 0 (the seeded change of `AofChannel.Push`) means "no hold". -/
 theorem partial_unlock_as_full_example :
@@ -88,7 +88,7 @@ theorem partial_unlock_as_full_example :
 journalling writes one record per level, all carrying the hold's CURRENT command; when that command is an update (flag 0x02)
 the second record means "update", not "one more level": a depth-2 hold is journalled as depth 1. -/
 theorem levels_with_update_flag_example :
-    (recover [{ L1 with flag := 2 }, { L1 with flag := 2 }]).get 0 100 1 = some ⟨0, 100, 1, 1, 1, 2, 0, some 35⟩ := by decide
+    (recover [{ L1 with flag := 2 }, { L1 with flag := 2 }]).get 0 100 1 = some ⟨0, 100, 1, 1, 1, 2, 0, some 35, 0⟩ := by decide
 
 /-! ### The restart (`reload`) against the meaning of the journal (`recover`) -/
 
